@@ -1,5 +1,6 @@
 import Driver.Common
 import Sourmash.Model.Seq
+import Sourmash.Model.Scaled
 import Sourmash.Spec.Kmers
 /-! C02 driver.  Model column: the `SeqToHashes` state machine of `Model/Seq.lean` (generated tables).
 Spec column: `Spec/Kmers.lean` (windows + independent genetic code / alphabet classes), never the
@@ -7,7 +8,21 @@ state machine.
 
 Raw-stream framing (`s2h`): a forced skip is the item `0`; in translate mode the implementation
 brackets the buffered hashes with two `0` items (documented in the iterator's comment).  `feed` /
-`addseq` / `capi` carry the marker-free statement: exactly the non-zero spec hashes, in order. -/
+`addseq` / `capi` carry the marker-free statement: exactly the non-zero spec hashes, in order.
+
+Digest ops (`ds2h`, `dfeed`, `daddseq`, `sigadd 1 …`) answer with a digest of the same value lists
+and exist for inputs of 65 000 … 200 000 bytes.  `Seq.run` and `Kmers.windows` walk `List.drop i`
+for every window (quadratic) and are not tail recursive, so for these ops the two columns are
+computed by the linear-time array loops of the section "linear-time paths" below.  They are NOT
+what the theorems speak about; they are tied to the theorem-level functions in the same run: on
+every digest request whose sequence has at most `refLimit` bytes (the generator attaches digest
+ops to a quarter of all short cases, every mode) the driver also evaluates `Seq.run` resp.
+`Kmers.dnaStream / proteinHashes / translateHashes` and answers `FAST-PATH-DIFFERS` in the column
+whose loop disagrees with them.  The loops reuse the per-byte / per-window functions of the model
+(`Seq.valid`, `Seq.complement`, `Seq.codon3`, `Seq.dayhoff`, `Seq.hp`, `Seq.lexMin`) resp. of the
+specification (`Kmers.isACGT`, `Kmers.canonical`, `Kmers.comp`, `Kmers.codon`, `Kmers.reduce`) and
+`Murmur.hash64`; only the enumeration of windows is re-done on arrays
+(`(a.extract i (i+k)).toList` in place of `(l.drop i).take k`). -/
 open Driver Seq
 
 def molOf (s : String) : Kmers.Mol :=
@@ -15,18 +30,10 @@ def molOf (s : String) : Kmers.Mol :=
 
 def u64s (l : List UInt64) : String := showNats (l.map UInt64.toNat)
 
-def itemStr : Item → String
-  | .ok h => toString h.toNat
-  | .errDna => "E:InvalidDNA"
-  | .errHf => "E:InvalidHashFunction"
-  | .panic => "PANIC"
-
-def showItems (l : List Item) : String :=
-  if l.isEmpty then "-" else ",".intercalate (l.map itemStr)
-
 def errName : Item → String
   | .errDna => "InvalidDNA"
   | .errHf => "InvalidHashFunction"
+  | .panic => "PANIC"
   | _ => "?"
 def errCode : Item → String
   | .errDna => "1101"
@@ -39,51 +46,322 @@ def insertSorted (x : Nat) : List Nat → List Nat
   | y :: t => if x < y then x :: y :: t else if x == y then y :: t else y :: insertSorted x t
 def sortDedup (l : List UInt64) : List Nat := l.foldl (fun acc h => insertSorted h.toNat acc) []
 
-def evStr : Kmers.Ev → String
-  | .hash h => toString h.toNat
-  | .skip => "0"
-  | .invalidDna => "E:InvalidDNA"
-
 structure Req where
   mol : Kmers.Mol
   k : Nat
   seed : UInt64
   force : Bool
   isProt : Bool
+  bs : ByteArray
   seq : List UInt8
 
-/-- what the property demands for this request: `none` = it says nothing;
-    otherwise (raw stream text, values to add in order, error) -/
-def specOf (r : Req) : Option (String × List UInt64 × Option String) :=
-  if r.mol == .dna then
-    if r.isProt || r.k == 0 then none else
-    let evs := Kmers.dnaStream r.k r.seed r.force r.seq
-    some (if evs.isEmpty then "-" else ",".intercalate (evs.map evStr),
-          (Kmers.evHashes evs).filter (· != 0),
-          if Kmers.evOk evs then none else some "InvalidDNA")
-  else if r.k < 3 then none
-  else if r.isProt then
-    let hs := Kmers.proteinHashes r.mol r.k r.seed r.seq
-    some (u64s hs, hs.filter (· != 0), none)
-  else
-    let hs := Kmers.translateHashes r.mol r.k r.seed r.seq
-    some (if hs.isEmpty then "-" else ",".intercalate ("0" :: hs.map (fun h => toString h.toNat) ++ ["0"]),
-          hs.filter (· != 0), none)
+/-- a raw item stream: the `Ok` values in order, and the error that ended it (if any) -/
+abbrev Raw := Array UInt64 × Option Item
 
-def parseReq (mol k seed force isprot hexs : String) : Req :=
-  { mol := molOf mol, k := k.toNat!, seed := UInt64.ofNat seed.toNat!, force := force == "1",
-    isProt := isprot == "1", seq := unhex hexs }
+/-! ### theorem-level functions (what `Theorems/C02.lean` is about) -/
 
 def modelItems (r : Req) : List Item :=
   run (St.new r.seq r.k r.force r.isProt r.mol r.seed) (fuelFor r.seq)
 
-def stepC02 (s : Unit) (ws : List String) : Unit × Resp :=
+def modelRef (r : Req) : Raw :=
+  let its := modelItems r
+  ((its.filterMap (fun | .ok h => some h | _ => none)).toArray, firstErr its)
+
+/-- what the property demands for this request: `none` = it says nothing; otherwise the raw stream
+    (markers included) and whether the call fails with `InvalidDNA` -/
+def specRef (r : Req) : Option (Array UInt64 × Bool) :=
+  if r.mol == .dna then
+    if r.isProt || r.k == 0 then none else
+    let evs := Kmers.dnaStream r.k r.seed r.force r.seq
+    some ((evs.filterMap (fun | .hash h => some h | .skip => some 0 | .invalidDna => none)).toArray,
+          !Kmers.evOk evs)
+  else if r.k < 3 then none
+  else if r.isProt then
+    some ((Kmers.proteinHashes r.mol r.k r.seed r.seq).toArray, false)
+  else
+    let hs := Kmers.translateHashes r.mol r.k r.seed r.seq
+    some (if hs.isEmpty then #[] else (0 :: hs ++ [0]).toArray, false)
+
+/-! ### linear-time paths (digest ops only; validated against the functions above, see the header) -/
+
+def refLimit : Nat := 1500
+
+def mapBytes (f : UInt8 → UInt8) (a : ByteArray) : ByteArray := Id.run do
+  let mut out := ByteArray.emptyWithCapacity a.size
+  for i in [0:a.size] do
+    out := out.push (f (a.get! i))
+  return out
+
+/-- reverse, then `f` on every byte -/
+def revMapBytes (f : UInt8 → UInt8) (a : ByteArray) : ByteArray := Id.run do
+  let mut out := ByteArray.emptyWithCapacity a.size
+  for i in [0:a.size] do
+    out := out.push (f (a.get! (a.size - 1 - i)))
+  return out
+
+def win (a : ByteArray) (i k : Nat) : List UInt8 := (a.extract i (i + k)).toList
+
+/-- hashes of all length-k windows of `a`, left to right (`a.size + 1 - k` of them; none for k = 0
+    when `zeroOk` is off — `Kmers.windows` — and `a.size + 1` empty windows when it is on, as the
+    state machine does for protein input with ksize < 3) -/
+def windowHashes (zeroOk : Bool) (a : ByteArray) (k : Nat) (seed : UInt64) (acc : Array UInt64) : Array UInt64 :=
+  if k == 0 && !zeroOk then acc else Id.run do
+  let mut out := acc
+  for i in [0:a.size + 1 - k] do
+    out := out.push (Murmur.hash64 (win a i k) seed)
+  return out
+
+/-- codon by codon from offset `f`, trailing incomplete codon dropped, then the alphabet reduction -/
+def translateFrom (codonF : UInt8 → UInt8 → UInt8 → UInt8) (reduceF : UInt8 → UInt8) (a : ByteArray) (f : Nat) : ByteArray :=
+  Id.run do
+  let n := (a.size - f) / 3
+  let mut out := ByteArray.emptyWithCapacity n
+  for j in [0:n] do
+    out := out.push (reduceF (codonF (a.get! (f + 3 * j)) (a.get! (f + 3 * j + 1)) (a.get! (f + 3 * j + 2))))
+  return out
+
+/-- the six frames: 0, 1, 2; forward strand then reverse complement each -/
+def sixFrames (compF : UInt8 → UInt8) (codonF : UInt8 → UInt8 → UInt8 → UInt8) (reduceF : UInt8 → UInt8)
+    (up : ByteArray) (kk : Nat) (seed : UInt64) : Array UInt64 := Id.run do
+  let rc := revMapBytes compF up
+  let mut out : Array UInt64 := #[]
+  for f in [0:3] do
+    out := windowHashes false (translateFrom codonF reduceF up f) kk seed out
+    out := windowHashes false (translateFrom codonF reduceF rc f) kk seed out
+  return out
+
+/-- the state machine of `Model/Seq.lean` on arrays: same fields, same branches -/
+def modelFast (r : Req) : Raw :=
+  let up := mapBytes upper r.bs
+  let n := up.size
+  let kS := if r.isProt || r.mol != .dna then r.k / 3 else r.k
+  let maxIndex := if n ≥ kS then n - kS + 1 else 0
+  if maxIndex == 0 then (#[], none)
+  else if r.isProt then
+    match r.mol with
+    | .dna => (#[], some .errHf)
+    | .protein => (windowHashes true up kS r.seed #[], none)
+    | .dayhoff => (windowHashes true (mapBytes dayhoff up) kS r.seed #[], none)
+    | .hp => (windowHashes true (mapBytes hp up) kS r.seed #[], none)
+  else if r.mol != .dna then
+    if n < kS * 3 then (#[], none)
+    else if kS == 0 then (#[], some .panic)
+    else
+      let red : UInt8 → UInt8 := if r.mol == .dayhoff then dayhoff else if r.mol == .hp then hp else id
+      let buf := sixFrames complement codon3 red up kS r.seed
+      ((#[0] ++ buf).push 0, none)
+  else Id.run do
+    let rc := revMapBytes complement up
+    let mut out : Array UInt64 := Array.emptyWithCapacity maxIndex
+    let mut lc := 0           -- dna_last_position_check
+    let mut err : Option Item := none
+    for idx in [0:maxIndex] do
+      -- for j in max(kmer_index, dna_last_position_check) .. kmer_index + dna_ksize
+      let mut j := max idx lc
+      let mut ok := true
+      while ok && j < idx + kS do
+        if !valid (up.get! j) then ok := false
+        else
+          lc := lc + 1
+          j := j + 1
+      if !ok then
+        if !r.force then
+          err := some .errDna
+          break
+        else out := out.push 0
+      else
+        out := out.push (Murmur.hash64 (lexMin (win up idx kS) (win rc (n - kS - idx) kS)) r.seed)
+    return (out, err)
+
+/-- the specification on arrays: every window of the upper-cased sequence on its own -/
+def specFast (r : Req) : Option (Array UInt64 × Bool) :=
+  let up := mapBytes Kmers.upper r.bs
+  let n := up.size
+  if r.mol == .dna then
+    if r.isProt || r.k == 0 then none else some (Id.run do
+      let mut out : Array UInt64 := Array.emptyWithCapacity (n + 1 - r.k)
+      let mut bad := false
+      for i in [0:n + 1 - r.k] do
+        let w := win up i r.k
+        if w.all Kmers.isACGT then out := out.push (Murmur.hash64 (Kmers.canonical w) r.seed)
+        else if r.force then out := out.push 0
+        else
+          bad := true
+          break
+      return (out, bad))
+  else if r.k < 3 then none
+  else if r.isProt then
+    some (windowHashes false (mapBytes (Kmers.reduce r.mol) up) (r.k / 3) r.seed #[], false)
+  else
+    if n < 3 * (r.k / 3) then some (#[], false) else
+    let hs := sixFrames Kmers.comp Kmers.codon (Kmers.reduce r.mol) up (r.k / 3) r.seed
+    some (if hs.isEmpty then #[] else (#[0] ++ hs).push 0, false)
+
+/-- model column of a request; `dg` = digest op (array path, checked against `Seq.run` when short) -/
+def getModel (dg : Bool) (r : Req) : Except String Raw :=
+  if !dg then .ok (modelRef r) else
+  let f := modelFast r
+  if r.bs.size ≤ refLimit && f != modelRef r then .error "FAST-PATH-DIFFERS" else .ok f
+
+def getSpec (dg : Bool) (r : Req) : Except String (Option (Array UInt64 × Bool)) :=
+  if !dg then .ok (specRef r) else
+  let f := specFast r
+  if r.bs.size ≤ refLimit && f != specRef r then .error "FAST-PATH-DIFFERS" else .ok f
+
+/-! ### rendering -/
+
+def rawText (vals : Array UInt64) (e : Option String) : String :=
+  let l := vals.toList.map (fun h => toString h.toNat) ++ (match e with | some x => ["E:" ++ x] | none => [])
+  if l.isEmpty then "-" else ",".intercalate l
+
+/-- count, xor, wrapping sum, order-sensitive polynomial, first and last (up to) 8 values -/
+def digest (v : Array UInt64) : String := Id.run do
+  let mut x : UInt64 := 0
+  let mut s : UInt64 := 0
+  let mut p : UInt64 := 0
+  for h in v do
+    x := x ^^^ h
+    s := s + h
+    p := p * 0x00000100000001b3 + h
+  let m := min v.size 8
+  return s!"n={v.size} x={x.toNat} s={s.toNat} p={p.toNat} f={u64s (v.extract 0 m).toList} l={u64s (v.extract (v.size - m) v.size).toList}"
+
+def nonzero (v : Array UInt64) : Array UInt64 := v.filter (· != 0)
+
+/-- sorted, duplicate-free, on arrays (the list version above is quadratic) -/
+def sortDedupA (v : Array UInt64) : Array UInt64 := Id.run do
+  let s := v.qsort (· < ·)
+  let mut out : Array UInt64 := Array.emptyWithCapacity s.size
+  for h in s do
+    if out.back? != some h then out := out.push h
+  return out
+
+/-- what a sketch with this num bound / scaled value keeps of the hashes it is handed:
+    the `num` smallest distinct ones, resp. the distinct ones up to `max_hash(scaled)` -/
+def kept (dg : Bool) (num scaled : Nat) (fed : Array UInt64) : Array UInt64 :=
+  let sorted := if dg then sortDedupA fed else (sortDedup fed.toList).toArray.map UInt64.ofNat
+  if num > 0 then sorted.extract 0 num
+  else
+    let mx := Scaled.maxHashForScaled scaled
+    sorted.filter (fun h => h.toNat ≤ mx)
+
+def showVals (dg : Bool) (v : Array UInt64) : String := if dg then digest v else u64s v.toList
+
+def mkReq (mol k seed force isprot : String) (bs : ByteArray) : Req :=
+  { mol := molOf mol, k := k.toNat!, seed := UInt64.ofNat seed.toNat!, force := force == "1",
+    isProt := isprot == "1", bs := bs, seq := bs.toList }
+
+def hexNib (b : UInt8) : Nat :=
+  if 48 ≤ b && b ≤ 57 then b.toNat - 48 else if 97 ≤ b && b ≤ 102 then b.toNat - 87
+  else if 65 ≤ b && b ≤ 70 then b.toNat - 55 else 0
+
+/-- bytes from a hex string (`-` = empty), linear and without recursion -/
+def unhexA (s : String) : ByteArray :=
+  if s == "-" then ByteArray.empty else Id.run do
+  let u := s.toUTF8
+  let n := u.size / 2
+  let mut out := ByteArray.emptyWithCapacity n
+  for i in [0:n] do
+    out := out.push (UInt8.ofNat (hexNib (u.get! (2 * i)) * 16 + hexNib (u.get! (2 * i + 1))))
+  return out
+
+/-- `@` = the case's current sequence -/
+def seqArg (cur : ByteArray) (w : String) : ByteArray := if w == "@" then cur else unhexA w
+
+def errTail (e : Option String) : String := match e with | none => "ok" | some v => "err " ++ v
+
+/-- s2h / feed / addseq and their digest forms on one request -/
+def seqOp (op : String) (dg tree : Bool) (num : Nat) (r : Req) : Resp :=
+  let _ := tree   -- both containers keep the same set
+  let m := getModel dg r
+  let sp := getSpec dg r
+  match op with
+  | "s2h" =>
+    { model := match m with
+        | .error e => e
+        | .ok (_, some .panic) => "PANIC"
+        | .ok (vals, e) =>
+          if dg then digest vals ++ "|" ++ (match e with | none => "end" | some x => "E:" ++ errName x)
+          else rawText vals (e.map errName),
+      spec := match sp with
+        | .error e => e
+        | .ok none => "-"
+        | .ok (some (vals, bad)) =>
+          if dg then digest vals ++ "|" ++ (if bad then "E:InvalidDNA" else "end")
+          else rawText vals (if bad then some "InvalidDNA" else none) }
+  | "feed" =>
+    { model := match m with
+        | .error e => e
+        | .ok (vals, e) =>
+          if e == some .panic then "PANIC" else showVals dg (nonzero vals) ++ "|" ++ errTail (e.map errName),
+      spec := match sp with
+        | .error e => e
+        | .ok none => "-"
+        | .ok (some (vals, bad)) =>
+          showVals dg (nonzero vals) ++ "|" ++ errTail (if bad then some "InvalidDNA" else none) }
+  | _ =>
+    let scaled := if num == 0 then 1 else 0
+    { model := match m with
+        | .error e => e
+        | .ok (_, some .panic) => "PANIC"
+        | .ok (_, some e) => "err " ++ errName e
+        | .ok (vals, none) => showVals dg (kept dg num scaled (nonzero vals)),
+      spec := match sp with
+        | .error e => e
+        | .ok none => "-"
+        | .ok (some (_, true)) => "err InvalidDNA"
+        | .ok (some (vals, false)) => showVals dg (kept dg num scaled (nonzero vals)) }
+
+structure SkSpec where
+  num : Nat
+  scaled : Nat
+  mol : String
+  k : String
+  seed : String
+
+def parseSk (s : String) : Option SkSpec :=
+  match s.splitOn ":" with
+  | [_, num, scaled, mol, k, seed] => some { num := num.toNat!, scaled := scaled.toNat!, mol, k, seed }
+  | _ => none
+
+/-- `Signature::add_sequence` / `add_protein`: every sketch of the signature is handed the sequence
+    with its own ksize, molecule type and seed; the call fails iff one of them fails -/
+def sigOp (dg : Bool) (force isprot specs : String) (bs : ByteArray) : Resp :=
+  let sks := (specs.splitOn ";").filterMap parseSk
+  let reqs := sks.map (fun s => (s, mkReq s.mol s.k s.seed force isprot bs))
+  let ms := reqs.map (fun (s, r) => (s, getModel dg r))
+  let ss := reqs.map (fun (s, r) => (s, getSpec dg r))
+  let model :=
+    match ms.findSome? (fun (_, m) => match m with | .error e => some e | _ => none) with
+    | some e => e
+    | none =>
+      match (ms.findSome? (fun (_, m) => match m with | .ok (_, some e) => some e | _ => none) : Option Item) with
+      | some Item.panic => "PANIC"
+      | some e => "err " ++ errName e
+      | none => "ok " ++ "|".intercalate (ms.map (fun (s, m) => match m with
+          | .ok (vals, _) => showVals dg (kept dg s.num s.scaled (nonzero vals))
+          | .error e => e))
+  let spec :=
+    match ss.findSome? (fun (_, m) => match m with | .error e => some e | _ => none) with
+    | some e => e
+    | none =>
+      if ss.any (fun (_, m) => match m with | .ok none => true | _ => false) then "-"
+      else if ss.any (fun (_, m) => match m with | .ok (some (_, true)) => true | _ => false) then "err InvalidDNA"
+      else "ok " ++ "|".intercalate (ss.map (fun (s, m) => match m with
+          | .ok (some (vals, _)) => showVals dg (kept dg s.num s.scaled (nonzero vals))
+          | _ => "?"))
+  { model := model, spec := spec }
+
+def stepC02 (s : ByteArray) (ws : List String) : ByteArray × Resp :=
   match ws with
   | "case" :: _ => (s, { model := "ok" })
   | ["selfcheck"] =>
     -- the byte codes of Spec/Kmers.lean are the customary 64-letter string
     let ok := Kmers.aaCodes == Kmers.aaString.toList.map Char.toNat
     (s, { model := "-", spec := if ok then "ok" else "aaCodes-differs-from-aaString" })
+  | ["seq", hx] =>
+    let bs := unhexA hx
+    (bs, { model := s!"len={bs.size}", spec := if hx == "-" then "len=0" else s!"len={hx.length / 2}" })
   | ["murmur", seed, hx] =>
     let bs := unhex hx
     let sd := UInt64.ofNat seed.toNat!
@@ -108,32 +386,19 @@ def stepC02 (s : Unit) (ws : List String) : Unit × Resp :=
     let m := molOf mol
     (s, { model := hex (toAA (m == .dayhoff) (m == .hp) bs),
           spec := hex ((Kmers.translate bs).map (Kmers.reduce m)) })
-  | ["s2h", mol, k, seed, force, isprot, hx] =>
-    let r := parseReq mol k seed force isprot hx
-    (s, { model := showItems (modelItems r),
-          spec := match specOf r with | some (t, _, _) => t | none => "-" })
-  | ["feed", mol, k, seed, force, isprot, hx] =>
-    let r := parseReq mol k seed force isprot hx
-    let its := modelItems r
-    let tail := fun (e : Option String) => match e with | none => "ok" | some v => "err " ++ v
-    (s, { model := if firstErr its == some .panic then "PANIC" else
-            u64s (fedHashes its) ++ "|" ++ tail ((firstErr its).map errName),
-          spec := match specOf r with
-            | some (_, hs, e) => u64s hs ++ "|" ++ tail e
-            | none => "-" })
-  | ["addseq", mol, k, seed, force, isprot, hx] =>
-    let r := parseReq mol k seed force isprot hx
-    let its := modelItems r
-    (s, { model := match firstErr its with
-            | some .panic => "PANIC"
-            | some e => "err " ++ errName e
-            | none => showNats (sortDedup (fedHashes its)),
-          spec := match specOf r with
-            | some (_, _, some e) => "err " ++ e
-            | some (_, hs, none) => showNats (sortDedup hs)
-            | none => "-" })
+  | [op, mol, k, seed, force, isprot, hx] =>
+    let r := mkReq mol k seed force isprot (seqArg s hx)
+    match op with
+    | "s2h" | "feed" | "addseq" => (s, seqOp op false false 0 r)
+    | "ds2h" => (s, seqOp "s2h" true false 0 r)
+    | "dfeed" => (s, seqOp "feed" true false 0 r)
+    | _ => (s, { model := "bad-op" })
+  | ["daddseq", ty, num, mol, k, seed, force, isprot, hx] =>
+    (s, seqOp "addseq" true (ty == "t") num.toNat! (mkReq mol k seed force isprot (seqArg s hx)))
+  | ["sigadd", dg, force, isprot, specs, hx] =>
+    (s, sigOp (dg == "1") force isprot specs (seqArg s hx))
   | ["capi", mol, k, seed, force, zeroes, isprot, hx] =>
-    let r := parseReq mol k seed force isprot hx
+    let r := mkReq mol k seed force isprot (seqArg s hx)
     let its := modelItems r
     let raw := r.force && zeroes == "1"
     (s, { model := match firstErr its with
@@ -141,10 +406,10 @@ def stepC02 (s : Unit) (ws : List String) : Unit × Resp :=
             | some e => "err " ++ errCode e
             | none => if raw then u64s (its.filterMap (fun | .ok h => some h | _ => none))
                       else u64s (fedHashes its),
-          spec := if raw then "-" else match specOf r with
-            | some (_, _, some _) => "err 1101"
-            | some (_, hs, none) => u64s hs
-            | none => "-" })
+          spec := if raw then "-" else match specRef r with
+            | none => "-"
+            | some (_, true) => "err 1101"
+            | some (vals, false) => u64s (nonzero vals).toList })
   | _ => (s, { model := "bad-op" })
 
-def main : IO Unit := Driver.run () stepC02
+def main : IO Unit := Driver.run ByteArray.empty stepC02
